@@ -268,12 +268,13 @@ def move_case(res, case):
     # ... accepts it without the context of one instance's class, stops answering in the middle;
     # or the application's own instance generator gives up half-way
     fault = r.choice([None] * 6 + ['refuse', 'silent-release', 'silent-store', 'class-not-accepted',
-                                   'generator-gives-up']) if n else None
+                                   'generator-gives-up', 'destination-releases']) if n else None
     give_up_at = r.randrange(n) if n else 0
     peer = svc.CooperativePeer(list(outcomes), refuse=(fault == 'refuse'),
                                silent_on_release=(fault == 'silent-release'),
                                refuse_classes=[svc.MR] if fault == 'class-not-accepted' else (),
-                               silent_on_store=give_up_at if fault == 'silent-store' else None)
+                               silent_on_store=give_up_at if fault == 'silent-store' else None,
+                               release_on_store=give_up_at if fault == 'destination-releases' else None)
     case = dict(case, fault=fault)
     res.distinct.add('move-fault|%s|%d' % (fault, min(n, 3)))
     with stubdul.stubbed() as Stub:
@@ -321,6 +322,18 @@ def move_case(res, case):
             res.violation('move-success-without-suboperations', 'C19.move',
                           '%s: final status Success although no sub-operation could be performed' % where,
                           case)
+        # what the final response says was performed is what was performed
+        performed = len([s for s in peer.stores if not s.get('unanswered')])
+        if finals and fault != 'silent-release':
+            cmd = responses[-1]['command']
+            counts = [cmd.get(t) for t in (R.TAG_COMPLETED, R.TAG_FAILED, R.TAG_WARNING)]
+            # (either convention: "completed" counts every performed sub-operation, or only the
+            # successful ones beside failed and warning)
+            if any(c is not None for c in counts) and performed not in (counts[0] or 0,
+                                                                         sum(c or 0 for c in counts)):
+                res.violation('move-final-counters-take-back-progress', 'C19.move',
+                              '%s: %d sub-operations were performed and answered, the final response counts '
+                              'completed/failed/warning = %r' % (where, performed, counts), case)
         if fault != 'silent-release':
             return
         error = None
